@@ -21,9 +21,91 @@ func ruleRecordProtection13(c *Ctx, r *Report) {
 		p, ok := unspill(v).(*ssa.Parameter)
 		return ok && p.Name() == name
 	}
+	// through: a value produced by a private helper of this package (for example one that
+	// marshals the header and derives the nonce for both seal and open) is looked at as what the
+	// helper returns, with the helper's parameters bound to the arguments of the call.
+	type helperView struct {
+		inner ssa.Value
+		bind  map[*ssa.Parameter]ssa.Value
+		site  *ssa.Call // the call in the rule's function (nil when v is not a helper result)
+	}
+	semantic := func(name string) bool {
+		return name == ics+".recordNonce13" || strings.HasSuffix(name, ".Marshal") || strings.HasSuffix(name, ".Unmarshal")
+	}
+	through := func(v ssa.Value) helperView {
+		hv := helperView{inner: v, bind: map[*ssa.Parameter]ssa.Value{}}
+		for i := 0; i < 3; i++ {
+			ex, ok := hv.inner.(*ssa.Extract)
+			var call *ssa.Call
+			idx := 0
+			if ok {
+				call, _ = ex.Tuple.(*ssa.Call)
+				idx = ex.Index
+			} else {
+				call, _ = hv.inner.(*ssa.Call)
+			}
+			if call == nil {
+				return hv
+			}
+			g := call.Call.StaticCallee()
+			if g == nil || len(g.Blocks) == 0 || g.Pkg == nil || shortPath(g.Pkg.Pkg.Path()) != ics || semantic(calleeName(&call.Call)) {
+				return hv
+			}
+			var retv ssa.Value
+			for _, b := range g.Blocks {
+				ret, isRet := b.Instrs[len(b.Instrs)-1].(*ssa.Return)
+				if !isRet || b == g.Recover || idx >= len(ret.Results) {
+					continue
+				}
+				rv := unspill(ret.Results[idx])
+				if isNilConst(rv) {
+					continue
+				}
+				if retv != nil && retv != rv {
+					return hv // several distinct results: leave as is
+				}
+				retv = rv
+			}
+			if retv == nil {
+				return hv
+			}
+			for j, p := range g.Params {
+				if j < len(call.Call.Args) {
+					a := call.Call.Args[j]
+					if pa, isP := a.(*ssa.Parameter); isP {
+						if b2, has := hv.bind[pa]; has {
+							a = b2
+						}
+					}
+					hv.bind[p] = a
+				}
+			}
+			if hv.site == nil {
+				hv.site = call
+			}
+			hv.inner = retv
+		}
+		return hv
+	}
+	bound := func(hv helperView, v ssa.Value) ssa.Value {
+		v = unspill(v)
+		for i := 0; i < 4; i++ {
+			p, ok := v.(*ssa.Parameter)
+			if !ok {
+				break
+			}
+			b, has := hv.bind[p]
+			if !has {
+				break
+			}
+			v = unspill(b)
+		}
+		return v
+	}
 	// nonceOK: v = recordNonce13(r.iv, <sequenceNumber parameter>) result #0
 	nonceOK := func(v ssa.Value) (bool, string) {
-		ex, ok := v.(*ssa.Extract)
+		hv := through(v)
+		ex, ok := hv.inner.(*ssa.Extract)
 		if !ok || ex.Index != 0 {
 			return false, "nonce is not the result of recordNonce13"
 		}
@@ -35,14 +117,18 @@ func ruleRecordProtection13(c *Ctx, r *Report) {
 		if !isLoad || f != "iv" {
 			return false, "recordNonce13 is not given the protection's write IV"
 		}
-		if !isParam(call.Call.Args[1], "sequenceNumber") {
+		if !isParam(bound(hv, call.Call.Args[1]), "sequenceNumber") {
 			return false, "recordNonce13 is not given the caller's full record sequence number"
 		}
 		return true, ""
 	}
-	// headerAAD: v = (*UnifiedHeader).Marshal(cell) result #0; returns the cell and the call
+	var aadParam *ssa.Parameter
+	// headerAAD: v = (*UnifiedHeader).Marshal(cell) result #0; returns the header cell in the
+	// rule's function and the instruction at which the header is marshalled (the Marshal call, or
+	// the call of the helper that marshals a copy of it)
 	headerAAD := func(v ssa.Value) (*ssa.Alloc, *ssa.Call) {
-		ex, ok := v.(*ssa.Extract)
+		hv := through(v)
+		ex, ok := hv.inner.(*ssa.Extract)
 		if !ok || ex.Index != 0 {
 			return nil, nil
 		}
@@ -51,7 +137,26 @@ func ruleRecordProtection13(c *Ctx, r *Report) {
 			return nil, nil
 		}
 		al, _ := call.Call.Args[0].(*ssa.Alloc)
-		return al, call
+		if hv.site == nil || al == nil {
+			return al, call
+		}
+		// inside the helper: the cell is the spill of a by-value parameter; the header is the
+		// caller's cell whose value was passed
+		p := spilledParam(al)
+		if p == nil {
+			return nil, nil
+		}
+		arg := bound(hv, p)
+		if u, isLoad := arg.(*ssa.UnOp); isLoad && u.Op == token.MUL {
+			if cell, isAl := u.X.(*ssa.Alloc); isAl {
+				return cell, hv.site
+			}
+		}
+		if pp, isP := arg.(*ssa.Parameter); isP {
+			aadParam = pp // the rule function's own by-value parameter, handed on unchanged
+			return nil, hv.site
+		}
+		return nil, nil
 	}
 	// storesAfter: a field store into cell that is not ordered before `at`
 	storesAfter := func(cell *ssa.Alloc, at ssa.Instruction) []ssa.Instruction {
@@ -138,8 +243,12 @@ func ruleRecordProtection13(c *Ctx, r *Report) {
 			ok, why := nonceOK(a[1])
 			r.Check(ok, rule, short(fn)+":nonce", c.ipos(opens[0]), "nonce = recordNonce13(read IV, full sequence number)", why)
 			r.Check(isParam(a[2], "encryptedRecord"), rule, short(fn)+":ciphertext", c.ipos(opens[0]), "opens the caller's encrypted record", "Open is not applied to the received encrypted record")
+			aadParam = nil
 			cell, mcall := headerAAD(a[3])
 			good := false
+			if cell == nil && aadParam != nil && aadParam.Name() == "header" {
+				good = true
+			}
 			if cell != nil {
 				// the cell is the spilled `header` parameter and has no other writer
 				n := 0
@@ -828,4 +937,75 @@ func sortStrings(s []string) {
 			s[j], s[j-1] = s[j-1], s[j]
 		}
 	}
+}
+
+
+// possibleSuccessReturns: the returns whose error result may be nil: the nil constant, the
+// result of a tail call to a function that can return nil, or a variable that is not known to be
+// non-nil at the return (not under its own `!= nil` test).
+func possibleSuccessReturns(fn *ssa.Function) []ssa.Instruction {
+	var out []ssa.Instruction
+	for _, blk := range fn.Blocks {
+		ret, ok := blk.Instrs[len(blk.Instrs)-1].(*ssa.Return)
+		if !ok || len(ret.Results) == 0 || blk == fn.Recover {
+			continue
+		}
+		e := unspill(ret.Results[len(ret.Results)-1])
+		if !isErrorType(e.Type()) {
+			continue
+		}
+		if errMayBeNil(e, ret, 0) {
+			out = append(out, ret)
+		}
+	}
+	return out
+}
+
+func errMayBeNil(e ssa.Value, at *ssa.Return, d int) bool {
+	if isNilConst(e) {
+		return true
+	}
+	if definitelyNonNil(e) || d > 3 {
+		return d > 3
+	}
+	if call, ok := e.(*ssa.Call); ok {
+		if g := call.Call.StaticCallee(); g != nil && len(g.Blocks) > 0 && inModule(g) {
+			for _, b := range g.Blocks {
+				r2, isRet := b.Instrs[len(b.Instrs)-1].(*ssa.Return)
+				if !isRet || len(r2.Results) == 0 || b == g.Recover {
+					continue
+				}
+				if errMayBeNil(unspill(r2.Results[len(r2.Results)-1]), r2, d+1) {
+					return true
+				}
+			}
+			return false
+		}
+	}
+	// a value tested against nil on the way to this return
+	if refs := e.Referrers(); refs != nil {
+		for _, ref := range *refs {
+			bo, ok := ref.(*ssa.BinOp)
+			if !ok || (bo.Op != token.NEQ && bo.Op != token.EQL) {
+				continue
+			}
+			if !(isNilConst(bo.X) || isNilConst(bo.Y)) {
+				continue
+			}
+			for _, r2 := range *bo.Referrers() {
+				iff, isIf := r2.(*ssa.If)
+				if !isIf {
+					continue
+				}
+				nonNilSucc := iff.Block().Succs[0]
+				if bo.Op == token.EQL {
+					nonNilSucc = iff.Block().Succs[1]
+				}
+				if len(nonNilSucc.Preds) == 1 && (nonNilSucc == at.Block() || nonNilSucc.Dominates(at.Block())) {
+					return false
+				}
+			}
+		}
+	}
+	return true
 }
